@@ -10,3 +10,12 @@ mod phase_accumulator;
 pub mod quantizer;
 pub mod ribbon_controller;
 mod utils;
+
+/// Verification hooks: re-exports of the crate-private building blocks (helpers, phase accumulator, lookup tables)
+/// so that external verification tooling can exercise them directly; off by default
+#[cfg(feature = "verif-hooks")]
+pub mod verif_hooks {
+    pub use crate::lookup_tables::{ADSR_ATTACK_TABLE, ADSR_DECAY_TABLE, SINE_TABLE};
+    pub use crate::phase_accumulator::PhaseAccumulator;
+    pub use crate::utils::{fabs, ilog_2, is_almost, linear_interp};
+}
